@@ -546,10 +546,14 @@ Qed.
 Lemma stream_read_all_ok s : exists r, stream_read_all s = Ok r.
 Proof. apply stream_read_ok. lia. Qed.
 
+Lemma enc_pair_len_bounds klen vlen :
+  (2 + klen + vlen <= enc_pair_len klen vlen <= 8 + klen + vlen)%Z.
+Proof. unfold enc_pair_len, size_len. destruct (127 <? klen)%Z, (127 <? vlen)%Z; lia. Qed.
+
 Lemma write_pair_ok klen vlen : (0 <= klen)%Z -> (0 <= vlen)%Z -> exists l, write_pair_len klen vlen = Ok l.
 Proof.
-  intros Hk Hv. unfold write_pair_len.
-  destruct (65500 <? 8 + klen + vlen)%Z eqn:E1; [|eauto].
+  intros Hk Hv. unfold write_pair_len. pose proof (enc_pair_len_bounds klen vlen) as B.
+  destruct (65500 <? enc_pair_len klen vlen)%Z eqn:E1; [|eauto].
   destruct (65500 - 8 - klen <? 0)%Z eqn:E0.
   - replace ((0 <? 0)%Z || (vlen <? 0)%Z) with false by (symmetry; apply orb_false_iff; split; apply Z.ltb_ge; lia).
     eauto.
@@ -560,15 +564,17 @@ Qed.
 
 Lemma write_pair_spec klen vlen l : (0 <= klen)%Z -> (0 <= vlen)%Z ->
   write_pair_len klen vlen = Ok l ->
-  (0 <= l <= vlen)%Z /\ ((8 + klen + l <= 65500)%Z \/ l = 0%Z) /\ ((8 + klen + vlen <= 65500)%Z -> l = vlen).
+  (0 <= l <= vlen)%Z /\
+  ((enc_pair_len klen vlen <= 65500)%Z -> l = vlen) /\
+  ((65500 < enc_pair_len klen vlen)%Z -> (8 + klen + l = 65500)%Z \/ ((65492 < klen)%Z /\ l = 0%Z)).
 Proof.
-  intros Hk Hv. unfold write_pair_len.
-  destruct (65500 <? 8 + klen + vlen)%Z eqn:E1.
+  intros Hk Hv. unfold write_pair_len. pose proof (enc_pair_len_bounds klen vlen) as B.
+  destruct (65500 <? enc_pair_len klen vlen)%Z eqn:E1.
   - destruct (65500 - 8 - klen <? 0)%Z eqn:E0.
     + destruct ((0 <? 0)%Z || (vlen <? 0)%Z); [discriminate|].
       intro H. assert (El : l = 0%Z) by congruence. lia.
     + destruct ((65500 - 8 - klen <? 0)%Z || (vlen <? 65500 - 8 - klen)%Z) eqn:E2; [discriminate|].
-      apply orb_false_iff in E2 as [A B]. apply Z.ltb_ge in A, B. apply Z.ltb_lt in E1.
+      apply orb_false_iff in E2 as [A B']. apply Z.ltb_ge in A, B'. apply Z.ltb_lt in E1.
       intro H. assert (El : l = (65500 - 8 - klen)%Z) by congruence. lia.
   - apply Z.ltb_ge in E1. intro H. assert (El : l = vlen) by congruence. lia.
 Qed.
